@@ -19,7 +19,7 @@ Fixpoint run_b (st : store) (rt : bytes) (t : tree bytes) (bs : list (list kvb))
   | [], [] => true
   | b :: bs', r :: obs' =>
       let t' := trie_update TH t (to_batch b) in
-      match trie_update_b toy_hash false st rt (to_batch b) with
+      match trie_update_b toy_hash false 257 st rt (to_batch b) with
       | None => false
       | Some (st', rt') =>
           bytes_eqb rt' r &&
@@ -30,5 +30,5 @@ Fixpoint run_b (st : store) (rt : bytes) (t : tree bytes) (bs : list (list kvb))
   end.
 
 Definition c10b_case := (list (list kvb) * list bytes)%type.
-Definition c10b_case_ok (c : c10b_case) : bool := run_b {| db := []; upd := [] |} [] E (fst c) (snd c).
+Definition c10b_case_ok (c : c10b_case) : bool := run_b {| db := []; upd := []; cache := [] |} [] E (fst c) (snd c).
 Definition c10b_mismatches (l : list c10b_case) : list nat := mismatches_from c10b_case_ok l 0.
